@@ -275,7 +275,12 @@ theorem inv_step (cm : List (C × List Nat)) (seen : List (C × Nat)) (c : C) (i
         rw [k2, he c']
         simp only [List.map_append, List.map_cons, List.map_nil, List.mem_append, List.mem_singleton, or_true,
           if_true, List.filter_append, Option.some.injEq]
-        split <;> simp
+        split
+        · simp
+        · next hnm =>
+          simp
+          intro a b hab hac
+          exact hnm (List.mem_map.2 ⟨(a, b), hab, hac⟩)
       · rw [k3 c' hc', he c']
         have : (c' ∈ (seen ++ [(c, i)]).map (·.1)) ↔ c' ∈ seen.map (·.1) := by
           simp only [List.map_append, List.map_cons, List.map_nil, List.mem_append, List.mem_singleton]
@@ -323,5 +328,530 @@ theorem addAll_spec : ∀ (pairs : List (C × Nat)) (cm : List (C × List Nat)) 
       exact ⟨g1, g2⟩
 
 end phase1
+
+section phase1b
+variable {C P E : Type} [DecidableEq C] [DecidableEq P]
+
+/-- The distinct points in order of first appearance, continuing from `pts`. -/
+def ptsF (qs : List (Query C P E)) (pts : List P) : List P := (qs.map (·.point)).foldl insertNew pts
+
+/-- The `(commitment, point index)` pairs of the queries, indices taken in the final point list. -/
+def pairsOf (qs : List (Query C P E)) (ptsFinal : List P) : List (C × Nat) :=
+  qs.map (fun q => (q.com, ptsFinal.idxOf q.point))
+
+theorem phase1_eq : ∀ (qs : List (Query C P E)) (pts : List P) (cm : List (C × List Nat)),
+    phase1 qs pts cm = (addAll (pairsOf qs (ptsF qs pts)) cm).map (fun cm' => (ptsF qs pts, cm')) := by
+  intro qs
+  induction qs with
+  | nil => intro pts cm; simp [phase1, ptsF, pairsOf, addAll]
+  | cons q qs ih =>
+    intro pts cm
+    have hF : ptsF (q :: qs) pts = ptsF qs (insertNew pts q.point) := by simp [ptsF]
+    have hmem : q.point ∈ insertNew pts q.point := (mem_insertNew _ _ _).2 (Or.inr rfl)
+    obtain ⟨t, ht⟩ := foldl_insertNew_prefix (qs.map (·.point)) (insertNew pts q.point)
+    have hidx : (ptsF qs (insertNew pts q.point)).idxOf q.point = (insertNew pts q.point).idxOf q.point := by
+      unfold ptsF; rw [ht]; exact List.idxOf_append_of_mem hmem
+    rw [phase1, hF]
+    simp only [pairsOf, List.map_cons, addAll, hidx]
+    cases addPoint cm q.com ((insertNew pts q.point).idxOf q.point) with
+    | none => rfl
+    | some cm' => simp only; rw [ih]; rfl
+
+theorem pairs_nodup_iff (qs : List (Query C P E)) :
+    (pairsOf qs (ptsF qs [])).Nodup ↔ (qs.map (fun q => (q.com, q.point))).Nodup := by
+  have hmemp : ∀ q ∈ qs, q.point ∈ ptsF qs [] := by
+    intro q hq
+    unfold ptsF
+    rw [mem_foldl_insertNew]
+    exact Or.inr (List.mem_map_of_mem hq)
+  have hmap : pairsOf qs (ptsF qs []) =
+      (qs.map (fun q => (q.com, q.point))).map (fun cp => (cp.1, (ptsF qs []).idxOf cp.2)) := by
+    simp [pairsOf, List.map_map, Function.comp_def]
+  rw [hmap]
+  constructor
+  · exact List.Nodup.of_map _
+  · intro hnd
+    apply List.Nodup.map_on _ hnd
+    intro x hx y hy hxy
+    obtain ⟨q1, hq1, rfl⟩ := List.mem_map.1 hx
+    obtain ⟨q2, hq2, rfl⟩ := List.mem_map.1 hy
+    simp only [Prod.mk.injEq] at hxy ⊢
+    exact ⟨hxy.1, (List.idxOf_inj (hmemp q1 hq1)).1 hxy.2⟩
+
+/-- A repeated `(commitment, point)` pair is refused, and nothing else is. -/
+theorem construct_none_iff (dflt : E) (qs : List (Query C P E)) :
+    constructIntermediateSets dflt qs = none ↔ ¬ (qs.map (fun q => (q.com, q.point))).Nodup := by
+  have h1 : constructIntermediateSets dflt qs = none ↔ phase1 qs [] [] = none := by
+    unfold constructIntermediateSets
+    cases phase1 qs [] [] with
+    | none => simp
+    | some r => obtain ⟨pts, cm⟩ := r; simp
+  rw [h1, phase1_eq, Option.map_eq_none_iff, (addAll_spec _ _ [] inv_nil List.nodup_nil).1, List.nil_append,
+    pairs_nodup_iff]
+
+end phase1b
+
+section phase3
+variable {C P E : Type} [DecidableEq C] [DecidableEq P]
+
+/-- The point-index set of commitment `c` (`commitment_set_map.iter().find(..)`). -/
+def setOf (cm : List (C × List Nat)) (c : C) : List Nat :=
+  match cm.find? (fun e => e.1 = c) with
+  | some e => btreeSet e.2
+  | none => []
+
+theorem setOf_eq (cm : List (C × List Nat)) (c : C) : setOf cm c = btreeSet ((entry cm c).getD []) := by
+  unfold setOf entry
+  cases cm.find? (fun e => e.1 = c) <;> simp [btreeSet]
+
+/-- The update of one commitment data by one query (inner loop of the fourth loop). -/
+def updOne (pts : List P) (cm : List (C × List Nat)) (sets : List (List Nat))
+    (d : CommitmentData C E) (q : Query C P E) : CommitmentData C E :=
+  if q.com = d.com then
+    { d with setIndex := sets.idxOf (setOf cm q.com),
+             evals := d.evals.set ((setOf cm q.com).idxOf (pts.idxOf q.point)) q.eval }
+  else d
+
+theorem placeEval_eq (pts : List P) (cm : List (C × List Nat)) (sets : List (List Nat))
+    (st : List (CommitmentData C E)) (q : Query C P E) :
+    placeEval pts cm sets st q = st.map (fun d => updOne pts cm sets d q) := by
+  unfold placeEval updOne setOf
+  rfl
+
+theorem foldl_placeEval (pts : List P) (cm : List (C × List Nat)) (sets : List (List Nat)) :
+    ∀ (qs : List (Query C P E)) (st : List (CommitmentData C E)),
+    qs.foldl (placeEval pts cm sets) st = st.map (fun d => qs.foldl (updOne pts cm sets) d) := by
+  intro qs
+  induction qs with
+  | nil => intro st; simp
+  | cons q qs ih =>
+    intro st
+    rw [List.foldl_cons, placeEval_eq, ih, List.map_map]
+    rfl
+
+theorem foldl_set_length (us : List (Nat × E)) : ∀ (ev0 : List E),
+    (us.foldl (fun ev u => ev.set u.1 u.2) ev0).length = ev0.length := by
+  induction us with
+  | nil => intro ev0; rfl
+  | cons u us ih => intro ev0; rw [List.foldl_cons, ih, List.length_set]
+
+theorem foldl_set_other (us : List (Nat × E)) : ∀ (ev0 : List E) (k : Nat), k ∉ us.map (·.1) →
+    (us.foldl (fun ev u => ev.set u.1 u.2) ev0)[k]? = ev0[k]? := by
+  induction us with
+  | nil => intro ev0 k _; rfl
+  | cons u us ih =>
+    intro ev0 k hk
+    simp only [List.map_cons, List.mem_cons, not_or] at hk
+    rw [List.foldl_cons, ih _ k hk.2, List.getElem?_set_ne (fun h => hk.1 h.symm)]
+
+theorem foldl_set_get (us : List (Nat × E)) : ∀ (ev0 : List E), (us.map (·.1)).Nodup →
+    (∀ u ∈ us, u.1 < ev0.length) →
+    ∀ u ∈ us, (us.foldl (fun ev u => ev.set u.1 u.2) ev0)[u.1]? = some u.2 := by
+  induction us with
+  | nil => intro ev0 _ _ u hu; cases hu
+  | cons a us ih =>
+    intro ev0 hnd hlt u hu
+    rw [List.map_cons, List.nodup_cons] at hnd
+    rw [List.foldl_cons]
+    rcases List.mem_cons.1 hu with rfl | hu'
+    · rw [foldl_set_other us _ _ hnd.1]
+      rw [List.getElem?_set_self (hlt _ (List.mem_cons_self ..))]
+    · apply ih _ hnd.2 _ u hu'
+      intro v hv
+      rw [List.length_set]
+      exact hlt v (List.mem_cons_of_mem _ hv)
+
+/-- The fields of one commitment data after all queries. -/
+theorem foldl_updOne (pts : List P) (cm : List (C × List Nat)) (sets : List (List Nat)) :
+    ∀ (qs : List (Query C P E)) (d : CommitmentData C E),
+    let d' := qs.foldl (updOne pts cm sets) d
+    d'.com = d.com ∧ d'.pointIndices = d.pointIndices ∧
+    d'.evals = ((qs.filter (fun q => q.com = d.com)).map
+        (fun q => ((setOf cm d.com).idxOf (pts.idxOf q.point), q.eval))).foldl
+        (fun ev u => ev.set u.1 u.2) d.evals ∧
+    ((∃ q ∈ qs, q.com = d.com) → d'.setIndex = sets.idxOf (setOf cm d.com)) := by
+  intro qs
+  induction qs with
+  | nil => intro d; simp
+  | cons q qs ih =>
+    intro d
+    simp only [List.foldl_cons]
+    obtain ⟨h1, h2, h3, h4⟩ := ih (updOne pts cm sets d q)
+    by_cases hq : q.com = d.com
+    · have hu : updOne pts cm sets d q =
+          { d with
+            setIndex := sets.idxOf (setOf cm q.com)
+            evals := d.evals.set ((setOf cm q.com).idxOf (pts.idxOf q.point)) q.eval } := by
+        simp [updOne, hq]
+      have hcom : (updOne pts cm sets d q).com = d.com := by rw [hu]
+      refine ⟨by rw [h1, hcom], by rw [h2, hu], ?_, ?_⟩
+      · rw [h3, hcom, List.filter_cons, if_pos (by simpa using hq), List.map_cons, List.foldl_cons, hu, hq]
+      · intro _
+        by_cases hex : ∃ q' ∈ qs, q'.com = d.com
+        · rw [h4 (by simpa [hcom] using hex), hcom]
+        · -- no later query touches this commitment
+          have hstay : ∀ (qs' : List (Query C P E)) (d1 : CommitmentData C E),
+              (∀ q' ∈ qs', q'.com ≠ d1.com) → qs'.foldl (updOne pts cm sets) d1 = d1 := by
+            intro qs'
+            induction qs' with
+            | nil => intro d1 _; rfl
+            | cons a qs' ih' =>
+              intro d1 hne
+              have ha : updOne pts cm sets d1 a = d1 := by
+                simp [updOne, hne a (List.mem_cons_self ..)]
+              rw [List.foldl_cons, ha]
+              exact ih' d1 (fun q' hq' => hne q' (List.mem_cons_of_mem _ hq'))
+          rw [hstay qs _ (by
+            intro q' hq' hc
+            exact hex ⟨q', hq', by rw [hc, hcom]⟩)]
+          rw [hu, hq]
+    · have hu : updOne pts cm sets d q = d := by simp [updOne, hq]
+      rw [hu] at h1 h2 h3 h4 ⊢
+      refine ⟨h1, h2, ?_, ?_⟩
+      · rw [h3, List.filter_cons, if_neg (by simpa using hq)]
+      · rintro ⟨q', hq', hc⟩
+        rcases List.mem_cons.1 hq' with rfl | hq''
+        · exact absurd hc hq
+        · exact h4 ⟨q', hq'', hc⟩
+
+end phase3
+
+section assembly
+variable {C P E : Type} [DecidableEq C] [DecidableEq P]
+
+theorem mem_phase2_aux (cm : List (C × List Nat)) : ∀ (init : List (List Nat)) (y : List Nat),
+    y ∈ cm.foldl (fun sets e => insertNew sets (btreeSet e.2)) init ↔
+      y ∈ init ∨ ∃ e ∈ cm, btreeSet e.2 = y := by
+  induction cm with
+  | nil => intro init y; simp
+  | cons e es ih =>
+    intro init y
+    rw [List.foldl_cons, ih, mem_insertNew]
+    simp only [List.mem_cons, exists_eq_or_imp]
+    constructor
+    · rintro ((h | h) | h)
+      · exact Or.inl h
+      · exact Or.inr (Or.inl h.symm)
+      · exact Or.inr (Or.inr h)
+    · rintro (h | h | h)
+      · exact Or.inl (Or.inl h)
+      · exact Or.inl (Or.inr h.symm)
+      · exact Or.inr h
+
+theorem mem_phase2 (cm : List (C × List Nat)) (y : List Nat) :
+    y ∈ phase2 cm ↔ ∃ e ∈ cm, btreeSet e.2 = y := by
+  unfold phase2
+  rw [mem_phase2_aux]; simp
+
+theorem phase2_nodup (cm : List (C × List Nat)) : (phase2 cm).Nodup := by
+  unfold phase2
+  have : ∀ (cm : List (C × List Nat)) (init : List (List Nat)), init.Nodup →
+      (cm.foldl (fun sets e => insertNew sets (btreeSet e.2)) init).Nodup := by
+    intro cm
+    induction cm with
+    | nil => intro init h; exact h
+    | cons e es ih => intro init h; exact ih _ (insertNew_nodup _ _ h)
+  exact this cm [] List.nodup_nil
+
+theorem filterMap_get_all (pts : List P) : ∀ (L : List Nat), (∀ i ∈ L, i < pts.length) →
+    (L.filterMap (fun i => pts[i]?)).length = L.length ∧
+    ∀ (j : Nat), (L.filterMap (fun i => pts[i]?))[j]? = (L[j]?).bind (fun i => pts[i]?) := by
+  intro L
+  induction L with
+  | nil => intro _; simp
+  | cons i L ih =>
+    intro h
+    have hi : i < pts.length := h i (List.mem_cons_self ..)
+    obtain ⟨h1, h2⟩ := ih (fun k hk => h k (List.mem_cons_of_mem _ hk))
+    have hsome : pts[i]? = some pts[i] := List.getElem?_eq_getElem hi
+    rw [List.filterMap_cons, hsome]
+    refine ⟨by simp [h1], ?_⟩
+    intro j
+    cases j with
+    | zero => simp [hsome]
+    | succ j => simp [h2 j]
+
+theorem entry_find (cm : List (C × List Nat)) (c : C) (l : List Nat) (h : entry cm c = some l) :
+    (c, l) ∈ cm := by
+  unfold entry at h
+  obtain ⟨e, he, rfl⟩ := Option.map_eq_some_iff.1 h
+  have h1 := List.find?_some he
+  have h2 := List.mem_of_find?_eq_some he
+  have : e.1 = c := by simpa using h1
+  rw [← this]; exact h2
+
+/-- Everything `sets_spec` needs about one query, in terms of the internal state. -/
+theorem construct_query (dflt : E) (qs : List (Query C P E))
+    (cm' : List (CommitmentData C E)) (psets : List (List P))
+    (h : constructIntermediateSets dflt qs = some (cm', psets)) (q : Query C P E) (hq : q ∈ qs) :
+    ∃ d ∈ cm', d.com = q.com ∧ ∃ S, psets[d.setIndex]? = some S ∧ d.evals.length = S.length ∧
+      S.Nodup ∧ (∀ p, p ∈ S ↔ ∃ q' ∈ qs, q'.com = q.com ∧ q'.point = p) ∧
+      ∃ j : Nat, S[j]? = some q.point ∧ d.evals[j]? = some q.eval := by
+  -- unfold the construction
+  unfold constructIntermediateSets at h
+  rw [phase1_eq] at h
+  cases hadd : addAll (pairsOf qs (ptsF qs [])) [] with
+  | none => rw [hadd] at h; simp at h
+  | some cm =>
+    rw [hadd] at h
+    simp only [Option.map_some, Option.some.injEq, Prod.mk.injEq] at h
+    obtain ⟨hcm', hpsets⟩ := h
+    set pts := ptsF qs [] with hpts
+    set pairs := pairsOf qs pts with hpairs
+    obtain ⟨hnone, hinv⟩ := addAll_spec pairs [] [] inv_nil List.nodup_nil
+    have hpnd : pairs.Nodup := by
+      by_contra hnd
+      have := hnone.2 (by simpa using hnd)
+      rw [hadd] at this; cases this
+    obtain ⟨hkeys, hent⟩ : Inv cm pairs := by simpa using hinv cm hadd
+    have hptsnd : pts.Nodup := foldl_insertNew_nodup _ [] List.nodup_nil
+    have hmemp : ∀ q' ∈ qs, q'.point ∈ pts := by
+      intro q' hq'
+      rw [hpts]; unfold ptsF
+      rw [mem_foldl_insertNew]
+      exact Or.inr (List.mem_map_of_mem hq')
+    -- the commitment of `q`
+    have hcin : q.com ∈ pairs.map (·.1) := by
+      rw [hpairs]; unfold pairsOf
+      rw [List.map_map]
+      exact List.mem_map.2 ⟨q, hq, rfl⟩
+    -- point indices of this commitment
+    have hl : (pairs.filter (fun p => p.1 = q.com)).map (·.2) =
+        (qs.filter (fun q' => q'.com = q.com)).map (fun q' => pts.idxOf q'.point) := by
+      rw [hpairs]; unfold pairsOf
+      rw [List.filter_map, List.map_map]
+      rfl
+    set l := (qs.filter (fun q' => q'.com = q.com)).map (fun q' => pts.idxOf q'.point) with hldef
+    have hentry : entry cm q.com = some l := by rw [hent, if_pos hcin, hl]
+    have hlnd : l.Nodup := by
+      rw [← hl]
+      apply List.Nodup.map_on _ (hpnd.filter _)
+      intro x hx y hy hxy
+      have hx' := (List.mem_filter.1 hx).2
+      have hy' := (List.mem_filter.1 hy).2
+      simp only [decide_eq_true_eq] at hx' hy'
+      exact Prod.ext (hx'.trans hy'.symm) hxy
+    have hein : (q.com, l) ∈ cm := entry_find cm q.com l hentry
+    have hset : setOf cm q.com = btreeSet l := by rw [setOf_eq, hentry]; rfl
+    set Sc := btreeSet l with hSc
+    -- the final data of this commitment
+    let d0 : CommitmentData C E := { com := q.com, setIndex := 0, pointIndices := l, evals := List.replicate l.length dflt }
+    obtain ⟨f1, f2, f3, f4⟩ := foldl_updOne pts cm (phase2 cm) qs d0
+    refine ⟨qs.foldl (updOne pts cm (phase2 cm)) d0, ?_, f1, ?_⟩
+    · rw [← hcm', foldl_placeEval, List.map_map]
+      exact List.mem_map.2 ⟨(q.com, l), hein, rfl⟩
+    · have hScmem : Sc ∈ phase2 cm := (mem_phase2 cm Sc).2 ⟨(q.com, l), hein, rfl⟩
+      have hidxlt : ∀ i ∈ Sc, i < pts.length := by
+        intro i hi
+        rw [hSc, mem_btreeSet, hldef] at hi
+        obtain ⟨q', hq', rfl⟩ := List.mem_map.1 hi
+        exact List.idxOf_lt_length_of_mem (hmemp q' (List.mem_filter.1 hq').1)
+      obtain ⟨g1, g2⟩ := filterMap_get_all pts Sc hidxlt
+      have hsi : (qs.foldl (updOne pts cm (phase2 cm)) d0).setIndex = (phase2 cm).idxOf Sc := by
+        rw [f4 ⟨q, hq, rfl⟩, hset]
+      refine ⟨Sc.filterMap (fun i => pts[i]?), ?_, ?_, ?_, ?_, ?_⟩
+      · rw [hsi, ← hpsets, List.getElem?_map, List.getElem?_idxOf hScmem]; rfl
+      · rw [f3, foldl_set_length, g1]
+        simp only [d0, List.length_replicate]
+        exact (btreeSet_length_of_nodup l hlnd).symm
+      · apply List.Nodup.filterMap _ (btreeSet_nodup l)
+        intro i i' p hi hi'
+        simp only [Option.mem_def] at hi hi'
+        obtain ⟨hi1, hi2⟩ := List.getElem?_eq_some_iff.1 hi
+        obtain ⟨hi1', hi2'⟩ := List.getElem?_eq_some_iff.1 hi'
+        exact (List.Nodup.getElem_inj_iff hptsnd).1 (hi2.trans hi2'.symm)
+      · intro p
+        rw [List.mem_filterMap]
+        constructor
+        · rintro ⟨i, hi, hp⟩
+          rw [hSc, mem_btreeSet, hldef] at hi
+          obtain ⟨q', hq', rfl⟩ := List.mem_map.1 hi
+          obtain ⟨hq'1, hq'2⟩ := List.mem_filter.1 hq'
+          refine ⟨q', hq'1, by simpa using hq'2, ?_⟩
+          rw [List.getElem?_idxOf (hmemp q' hq'1)] at hp
+          exact Option.some.inj hp
+        · rintro ⟨q', hq', hc, rfl⟩
+          refine ⟨pts.idxOf q'.point, ?_, List.getElem?_idxOf (hmemp q' hq')⟩
+          rw [hSc, mem_btreeSet, hldef]
+          exact List.mem_map.2 ⟨q', List.mem_filter.2 ⟨hq', by simpa using hc⟩, rfl⟩
+      · -- position of the query's point and its evaluation
+        have hiS : pts.idxOf q.point ∈ Sc := by
+          rw [hSc, mem_btreeSet, hldef]
+          exact List.mem_map.2 ⟨q, List.mem_filter.2 ⟨hq, by simp⟩, rfl⟩
+        refine ⟨Sc.idxOf (pts.idxOf q.point), ?_, ?_⟩
+        · rw [g2, List.getElem?_idxOf hiS]
+          simp only [Option.bind_some]
+          exact List.getElem?_idxOf (hmemp q hq)
+        · rw [f3]
+          simp only [d0, hset]
+          have hus_nd : (((qs.filter (fun q' => q'.com = q.com)).map
+              (fun q' => (Sc.idxOf (pts.idxOf q'.point), q'.eval))).map (·.1)).Nodup := by
+            rw [List.map_map]
+            have : ((fun (u : Nat × E) => u.1) ∘ fun (q' : Query C P E) => (Sc.idxOf (pts.idxOf q'.point), q'.eval)) =
+                (fun i => Sc.idxOf i) ∘ (fun q' => pts.idxOf q'.point) := rfl
+            rw [this, ← List.map_map]
+            apply List.Nodup.map_on _ hlnd
+            intro x hx y hy hxy
+            have hxS : x ∈ Sc := by rw [hSc, mem_btreeSet]; exact hx
+            exact (List.idxOf_inj hxS).1 hxy
+          have hus_lt : ∀ u ∈ (qs.filter (fun q' => q'.com = q.com)).map
+              (fun q' => (Sc.idxOf (pts.idxOf q'.point), q'.eval)), u.1 < (List.replicate l.length dflt).length := by
+            intro u hu
+            obtain ⟨q', hq', rfl⟩ := List.mem_map.1 hu
+            have : pts.idxOf q'.point ∈ Sc := by
+              rw [hSc, mem_btreeSet, hldef]
+              exact List.mem_map.2 ⟨q', hq', rfl⟩
+            have := List.idxOf_lt_length_of_mem this
+            rw [List.length_replicate, ← btreeSet_length_of_nodup l hlnd]
+            exact this
+          have := foldl_set_get _ (List.replicate l.length dflt) hus_nd hus_lt
+            (Sc.idxOf (pts.idxOf q.point), q.eval)
+            (List.mem_map.2 ⟨q, List.mem_filter.2 ⟨hq, by simp⟩, rfl⟩)
+          exact this
+
+/-- The commitments of the result: the distinct commitments in order of first appearance. -/
+theorem construct_coms (dflt : E) (qs : List (Query C P E))
+    (cm' : List (CommitmentData C E)) (psets : List (List P))
+    (h : constructIntermediateSets dflt qs = some (cm', psets)) :
+    cm'.map (·.com) = firstOcc (qs.map (·.com)) := by
+  unfold constructIntermediateSets at h
+  rw [phase1_eq] at h
+  cases hadd : addAll (pairsOf qs (ptsF qs [])) [] with
+  | none => rw [hadd] at h; simp at h
+  | some cm =>
+    rw [hadd] at h
+    simp only [Option.map_some, Option.some.injEq, Prod.mk.injEq] at h
+    obtain ⟨hcm', -⟩ := h
+    obtain ⟨-, hinv⟩ := addAll_spec (pairsOf qs (ptsF qs [])) [] [] inv_nil List.nodup_nil
+    obtain ⟨hkeys, -⟩ : Inv cm (pairsOf qs (ptsF qs [])) := by simpa using hinv cm hadd
+    rw [← hcm', foldl_placeEval, List.map_map, List.map_map]
+    have : (fun (e : C × List Nat) => (qs.foldl (updOne (ptsF qs []) cm (phase2 cm))
+        ({ com := e.1, setIndex := 0, pointIndices := e.2, evals := List.replicate e.2.length dflt } : CommitmentData C E)).com) =
+        (fun e => e.1) := by
+      funext e
+      exact (foldl_updOne _ _ _ qs _).1
+    simp only [Function.comp_def]
+    rw [this, hkeys]
+    simp [pairsOf, List.map_map, Function.comp_def]
+
+end assembly
+
+section relabel
+variable {C C' P E E' : Type} [DecidableEq C] [DecidableEq C'] [DecidableEq P]
+
+/-- Renaming the commitments and transforming the evaluations of a query. -/
+def relabelQuery (f : C → C') (g : E → E') (q : Query C P E) : Query C' P E' :=
+  { com := f q.com, point := q.point, eval := g q.eval }
+
+/-- The same on a commitment data. -/
+def relabelData (f : C → C') (g : E → E') (d : CommitmentData C E) : CommitmentData C' E' :=
+  { com := f d.com, setIndex := d.setIndex, pointIndices := d.pointIndices, evals := d.evals.map g }
+
+def relabelCm (f : C → C') (cm : List (C × List Nat)) : List (C' × List Nat) :=
+  cm.map (fun e => (f e.1, e.2))
+
+theorem addPoint_relabel (f : C → C') (hf : Function.Injective f) (c : C) (i : Nat) :
+    ∀ (cm : List (C × List Nat)),
+    addPoint (relabelCm f cm) (f c) i = (addPoint cm c i).map (relabelCm f) := by
+  intro cm
+  induction cm with
+  | nil => simp [addPoint, relabelCm]
+  | cons e es ih =>
+    have hiff : (f e.1 = f c) ↔ (e.1 = c) := ⟨fun h => hf h, fun h => by rw [h]⟩
+    simp only [relabelCm, List.map_cons, addPoint] at ih ⊢
+    by_cases hc : e.1 = c
+    · simp only [hc, if_true]
+      by_cases hi : i ∈ e.2 <;> simp [hi, relabelCm]
+    · have hc' : ¬ (f e.1 = f c) := fun h => hc (hiff.1 h)
+      simp only [hc, hc', if_false]
+      rw [ih]
+      cases addPoint es c i <;> simp [relabelCm]
+
+theorem phase1_relabel (f : C → C') (hf : Function.Injective f) (g : E → E') :
+    ∀ (qs : List (Query C P E)) (pts : List P) (cm : List (C × List Nat)),
+    phase1 (qs.map (relabelQuery f g)) pts (relabelCm f cm) =
+      (phase1 qs pts cm).map (fun r => (r.1, relabelCm f r.2)) := by
+  intro qs
+  induction qs with
+  | nil => intro pts cm; simp [phase1]
+  | cons q qs ih =>
+    intro pts cm
+    simp only [List.map_cons, phase1, relabelQuery]
+    rw [addPoint_relabel f hf]
+    cases addPoint cm q.com ((insertNew pts q.point).idxOf q.point) with
+    | none => simp
+    | some cm1 => simp only [Option.map_some]; exact ih _ _
+
+theorem phase2_relabel (f : C → C') (cm : List (C × List Nat)) : phase2 (relabelCm f cm) = phase2 cm := by
+  unfold phase2 relabelCm
+  rw [List.foldl_map]
+
+theorem entry_relabel (f : C → C') (hf : Function.Injective f) (c : C) :
+    ∀ (cm : List (C × List Nat)), entry (relabelCm f cm) (f c) = entry cm c := by
+  intro cm
+  induction cm with
+  | nil => rfl
+  | cons e es ih =>
+    have hiff : (f e.1 = f c) ↔ (e.1 = c) := ⟨fun h => hf h, fun h => by rw [h]⟩
+    have : relabelCm f (e :: es) = (f e.1, e.2) :: relabelCm f es := rfl
+    rw [this, entry_cons, entry_cons, ih]
+    by_cases hc : e.1 = c
+    · simp [hc]
+    · have hc' : ¬ (f e.1 = f c) := fun h => hc (hiff.1 h)
+      simp [hc, hc']
+
+theorem placeEval_relabel (f : C → C') (hf : Function.Injective f) (g : E → E') (pts : List P)
+    (cm : List (C × List Nat)) (sets : List (List Nat)) (st : List (CommitmentData C E)) (q : Query C P E) :
+    placeEval pts (relabelCm f cm) sets (st.map (relabelData f g)) (relabelQuery f g q) =
+      (placeEval pts cm sets st q).map (relabelData f g) := by
+  rw [placeEval_eq, placeEval_eq, List.map_map, List.map_map]
+  apply List.map_congr_left
+  intro d _
+  have hset : setOf (relabelCm f cm) (f q.com) = setOf cm q.com := by
+    rw [setOf_eq, setOf_eq, entry_relabel f hf]
+  have hiff : (f q.com = f d.com) ↔ (q.com = d.com) := ⟨fun h => hf h, fun h => by rw [h]⟩
+  simp only [Function.comp, updOne, relabelData, relabelQuery, hset]
+  by_cases hc : q.com = d.com
+  · simp [hc, List.map_set]
+  · have hc' : ¬ (f q.com = f d.com) := fun h => hc (hiff.1 h)
+    simp [hc, hc']
+
+theorem foldl_placeEval_relabel (f : C → C') (hf : Function.Injective f) (g : E → E') (pts : List P)
+    (cm : List (C × List Nat)) (sets : List (List Nat)) :
+    ∀ (qs : List (Query C P E)) (st : List (CommitmentData C E)),
+    (qs.map (relabelQuery f g)).foldl (placeEval pts (relabelCm f cm) sets) (st.map (relabelData f g)) =
+      (qs.foldl (placeEval pts cm sets) st).map (relabelData f g) := by
+  intro qs
+  induction qs with
+  | nil => intro st; rfl
+  | cons q qs ih =>
+    intro st
+    rw [List.map_cons, List.foldl_cons, List.foldl_cons, placeEval_relabel f hf g, ih]
+
+/-- The grouping commutes with an injective renaming of the commitments and any transformation
+of the evaluations. -/
+theorem construct_relabel (f : C → C') (hf : Function.Injective f) (g : E → E') (dflt : E)
+    (qs : List (Query C P E)) :
+    constructIntermediateSets (g dflt) (qs.map (relabelQuery f g)) =
+      (constructIntermediateSets dflt qs).map (fun r => (r.1.map (relabelData f g), r.2)) := by
+  unfold constructIntermediateSets
+  have h1 := phase1_relabel f hf g qs [] []
+  simp only [relabelCm, List.map_nil] at h1
+  rw [h1]
+  cases phase1 qs [] [] with
+  | none => rfl
+  | some r =>
+    obtain ⟨pts, cm⟩ := r
+    simp only [Option.map_some]
+    have h2 := phase2_relabel f cm
+    have h3 := foldl_placeEval_relabel f hf g pts cm (phase2 cm) qs
+      (cm.map (fun e => ({ com := e.1, setIndex := 0, pointIndices := e.2, evals := List.replicate e.2.length dflt } : CommitmentData C E)))
+    have hcm : List.map (fun (e : C × List Nat) => (f e.1, e.2)) cm = relabelCm f cm := rfl
+    simp only [hcm]
+    rw [h2, ← h3]
+    congr 3
+    simp [relabelCm, relabelData, List.map_map, Function.comp_def]
+
+end relabel
 
 end MidnightZK.C14
